@@ -168,7 +168,7 @@ pub fn run(ctx: &mut Ctx) {
     ctx.add_class("bytes12:names-checked", total);
     ctx.exhaustive_all = true;
 
-    let n = ctx.q(20000, 200000);
+    let n = ctx.q(60000, 400000);
     let bytestr = || {
         prop_oneof![
             4 => proptest::collection::vec(any::<u8>(), 0..40),
@@ -224,7 +224,7 @@ pub fn run(ctx: &mut Ctx) {
         }
     }
 
-    let nw = ctx.q(10000, 100000);
+    let nw = ctx.q(50000, 300000);
     ctx.explore::<WCase>(
         "writer",
         nw,
